@@ -30,6 +30,7 @@ from common import Outcome, Scratch, pmap, tlc
 PID = "C01"
 RECLIMIT = sys.getrecursionlimit()
 DEV_PRE = "PreParseLeftSet"
+DEV_TITLE = "HeadingTitleLost"
 
 # ---------------------------------------------------------------------------
 # the full concrete token alphabet
@@ -60,7 +61,7 @@ BASE_TOKENS = [
     # template-ish fragments
     "{{t}}", "{{d|x}}", "{{d|1=", "{{tb}}", "{{te}}", "{{row|a}}", "{{li}}", "{{b|z}}", "{{sp}}", "{{nl}}", "{{eq}}",
     "{{pipe}}", "{{loop}}", "{{nest}}", "{{PAGENAME}}", "{{#if:x|y|z}}", "{{#if:", "{{#switch:a|a=1}}", "{{!}}", "{{=}}",
-    "{{{1}}}", "{{{1|d}}}", "{{{", "{{#tag:ref|x}}", "{{#invoke:m|f}}", "{{subst:t}}", "{{:Page}}", "{{t|", "|x=", "{{t\n|a\n}}",
+    "{{{1}}}", "{{{1|d}}}", "{{{", "{{#tag:ref|x}}", "{{subst:t}}", "{{:Page}}", "{{t|", "|x=", "{{t\n|a\n}}",
     # links
     "[[L]]", "[[L|t]]", "[[File:a.png|thumb|c]]", "[[L]]s", "[[#a|]]", "[[ ]]", "[[L|", "[[Category:c]]",
     # words / text / entities / unicode
@@ -294,18 +295,22 @@ def slices(d, parent_kind="NONE", out=None):
 
 
 def run_docs(chunk):
-    """chunk: list of (doc id, text).  Returns per doc and mode: harness-checked facts and the dump."""
+    """chunk: list of (doc id, text, want_model).  Returns per doc and mode: harness-checked facts
+    and the dump; for want_model docs also the plain-mode tree in the machine's vocabulary."""
     common.use_repo()
     res = []
+    models = []
     with Scratch("c01-") as d:
         ctx = pt.new_ctx(d, templates=True)
         try:
-            for did, text in chunk:
+            for did, text, want_model in chunk:
                 for mode in pt.MODES:
                     root, err, flags = pt.parse(ctx, text, mode)
                     if root is None:
                         res.append((did, mode, err, flags, None, None))
                         continue
+                    if want_model and mode == "plain":
+                        models.append((did, "model", None, None, None, json.dumps(pt.dump_model(root))))
                     # (the parse itself ran under the interpreter's default recursion limit;
                     # only the harness-side dumping of deep trees gets more room)
                     sys.setrecursionlimit(20000)
@@ -326,7 +331,7 @@ def run_docs(chunk):
         elif key is not None:
             seen.add(key)
         slim.append((did, mode, err, flags, key, json.dumps(dump) if dump is not None else None))
-    return slim
+    return slim + models
 
 
 def validate_trees(trees):
@@ -357,16 +362,22 @@ def validate_parallel(o, trees, label, nparts=12):
     return bad
 
 
-def check_batch(o: Outcome, docs, origin):
+def check_batch(o: Outcome, docs, origin, want_model=frozenset(), predicted=None):
     """docs: list of texts.  Runs the real parser three ways on each, checks the harness-side
-    observables, has TLC validate the distinct tree shapes."""
-    items = list(enumerate(docs))
+    observables, has TLC validate the distinct tree shapes.  Returns {doc id: machine-vocabulary
+    dump of the plain-mode tree} for the ids in want_model.  predicted: {doc id: as-is machine
+    observation} (G), used to say whether the as-is model explains a fault."""
+    items = [(i, t, i in want_model) for i, t in enumerate(docs)]
     results = pmap(run_docs, items)
+    models = {}
     whole, whole_src = {}, {}
     slice_keys, slice_src = {}, {}
     sys.setrecursionlimit(20000)
     for did, mode, err, flags, key, dump in results:
         dump = json.loads(dump) if dump is not None else None
+        if mode == "model":
+            models[did] = dump
+            continue
         o.evaluations += 1
         text = docs[did]
         if err is not None:
@@ -411,15 +422,22 @@ def check_batch(o: Outcome, docs, origin):
         text, mode = slice_src[skeys[j]]
         report_faults(o, origin + "/slice", text, mode, faults, slice_keys[skeys[j]][1])
     o.extra.setdefault("distinct_tree_shapes", {})[origin] = {"whole": len(keys), "slices": len(skeys)}
-    return len(keys), len(skeys)
+    return models
+
+
+# faults that a listed deviation of the model produces (fault names come from TLC)
+FAULT_DEVIATION = {"LEVEL-args-not-[title]": DEV_TITLE}
 
 
 def report_faults(o, origin, text, mode, faults, dump):
     faults = sorted(faults)
     case = {"origin": origin, "mode": mode, "text": text[:3000], "faults": faults,
             "tree": json.dumps(dump)[:1500]}
-    o.violation(case, f"tree returned by parse(..., {mode}) is not well-formed: {', '.join(faults)}",
-                cls="wf:" + ",".join(faults))
+    why = f"tree returned by parse(..., {mode}) is not well-formed: {', '.join(faults)}"
+    if all(f in FAULT_DEVIATION for f in faults):
+        o.classify(case, why, sorted({FAULT_DEVIATION[f] for f in faults}), cls="wf:" + ",".join(faults))
+    else:
+        o.violation(case, why, cls="wf:" + ",".join(faults))
 
 
 # ---------------------------------------------------------------------------
@@ -440,15 +458,79 @@ def make_v_docs(tier, rng):
     return docs
 
 
+# ---------------------------------------------------------------------------
+# M + G
+# ---------------------------------------------------------------------------
+
+def spellings(doc):
+    prim = "".join(pt.SPELL[c][0] for c in doc)
+    alts = []
+    for v in (1, 2):
+        t = "".join(pt.SPELL[c][min(v, len(pt.SPELL[c]) - 1)] for c in doc)
+        if t != prim and t not in alts:
+            alts.append(t)
+    return prim, alts
+
+
+def run_g(o: Outcome, cfgs):
+    with ThreadPoolExecutor(len(cfgs)) as ex:
+        rs = list(ex.map(lambda c: tlc("Gen_Parser", c, workers=1, timeout=3000, coverage=(c == cfgs[0])), cfgs))
+    cases = []
+    for cfg, r in zip(cfgs, rs):
+        o.add_tlc(cfg + " (M: MachineOK on every sequence)", r)
+        cases += [c for c in r.cases if c["doc"]]
+    o.extra["action_coverage"] = {k: list(v) for k, v in rs[0].coverage_actions().items()}
+    kinds = {}
+    for c in cases:
+        for k in set(re.findall(r'"kind": "(\w+)"', json.dumps(c["tree"]))):
+            kinds[k] = kinds.get(k, 0) + 1
+    o.extra["node_kinds_in_machine_trees"] = kinds
+    docs, prim_of = [], {}
+    for ci, c in enumerate(cases):
+        prim, alts = spellings(c["doc"])
+        prim_of[len(docs)] = ci
+        docs.append(prim)
+        docs += alts
+    models = check_batch(o, docs, "G", want_model=frozenset(prim_of))
+    drift_by = {}
+    for did, ci in prim_of.items():
+        c = cases[ci]
+        real = models.get(did)
+        if real is None:
+            continue
+        if real == c["tree"] or ("treeA" in c and real == c["treeA"]):
+            continue
+        o.note_drift({"chunks": c["doc"], "text": docs[did], "machine_tree": c["tree"], "real_tree": real})
+        key = " ".join(sorted(set(c["doc"])))
+        drift_by[key] = drift_by.get(key, 0) + 1
+    o.extra["machine_tree_agreement"] = {"compared": len(prim_of), "differ": o.drift_count}
+    mid = cases[len(cases) // 2]
+    o.sample({"chunks": mid["doc"], "text": spellings(mid["doc"])[0], "machine_tree": mid["tree"]})
+    return cases
+
+
+def run_demos(o: Outcome):
+    for cfg, inv in (("Demo_Parser_heading.cfg", "AsIsWellFormed"), ("Demo_Parser_preflag.cfg", "AsIsFlagsClean")):
+        r = tlc("Gen_Parser", cfg, workers=1, check=False)
+        if inv not in r.invariant_violated:
+            raise common.TLCError(f"{cfg} did not produce the expected counterexample")
+        o.extra.setdefault("demos", {})[cfg] = "counterexample found by TLC with the deviation switched on"
+
+
 def run(tier: str) -> int:
     o = Outcome(PID, tier)
-    o.rule = ("V: every generated input (token soup over the full concrete alphabet, grammar document, page mutation, "
+    o.rule = ("M/G: every chunk sequence reachable in the universes of Gen_Parser is one case (parsed in its primary and "
+              "alternative spellings); V: every generated input (token soup over the full concrete alphabet, grammar document, page mutation, "
               "ladder document) x 3 parse modes is one evaluation; trees are de-duplicated by shape before TLC "
               "validates them with WellFormed; distinct_nontrivial counts distinct tree shapes with >= 2 node kinds.")
     o.assumptions = [
         "inputs do not contain characters of the private-use cookie range U+10203D..U+10FFF0 (documented assumption of the library)",
         "trees larger than %d shape characters or deeper than %d levels are validated as one-level slices (each node with stubs for its child nodes)" % (SLICE_LIMIT, DEPTH_LIMIT),
     ]
+    pre = "T" if tier == "thorough" else "Q"
+    run_g(o, [f"Gen_Parser_{pre}{u}.cfg" for u in ("core", "table", "block", "html", "inline", "pre")])
+    o.exhaustive = True
+    run_demos(o)
     rng = random.Random(common.seed() * 15485863 + 1)
     docs = make_v_docs(tier, rng)
     for origin in ("ladder", "grammar", "mutation", "soup"):
